@@ -15,7 +15,7 @@ m = {
            "source_commits": hook_commits, "add_only": True},
  "engines": [{"name": "gowp", "path": "/verif/engine", "serves_properties": sorted(claims), "kind_free_text": "weakest-precondition style VC generator over go/ssa of the real code, contracts in //@ comments, obligations discharged by z3 5.1 / z3 4.8.12 / cvc5 1.0"}],
  "checks": [], "not_applicable": [],
- "notes": "All checks: ./check <id> quick|thorough. Exit 0 = every claimed obligation discharged (known findings printed), 1 = VIOLATION line(s), 2 = engine fault (no verdict). See DESIGN.md."
+ "notes": "All checks: ./check <id> quick|thorough. Exit 0 = every claimed obligation discharged (known findings printed as KNOWN-FINDING lines), 1 = VIOLATION line(s): an obligation generated from the current tree failed (solver answer in the replay file), 2 = no verdict: engine fault, or UNDECIDED lines — the contract of a function no longer matches the code (renamed local, vanished call site or loop), which decides nothing and is never reported as a violation. See DESIGN.md A.4."
 }
 for i in ids:
     if i in claims:
